@@ -8,7 +8,7 @@ from _leg import Leg, THOROUGH
 import trio, stackscope
 leg = Leg("c14_trio", "task trees depth<=2 x fan<=2 x nurseries 0..2 x {body, __aexit__} x 4 body endings; thread hops depth 0..2; "
                       "non-trivial = tree with >= 1 nursery; distinct by spec")
-ENDINGS = ["plain", "tryexcept", "tryfinally", "condreturn"]
+ENDINGS = ["plain", "tryexcept", "tryfinally", "condreturn", "tryexcept_raise"]
 def make_task_src(name, nnurs, block_in, ending, nchildren_per_nursery):
     """source of an async function that opens nnurs nested nurseries, starts children in each, then blocks in body or falls into __aexit__"""
     L=[f"async def {name}(spec, started):"]
@@ -22,6 +22,7 @@ def make_task_src(name, nnurs, block_in, ending, nchildren_per_nursery):
         body = "started.append(1); await trio.sleep_forever()" if block_in=="body" else "started.append(1)"
         if ending=="plain": L.append(f"{ind}{body}")
         elif ending=="tryexcept": L+= [f"{ind}try:", f"{ind}    {body}", f"{ind}except KeyError:", f"{ind}    pass"]
+        elif ending=="tryexcept_raise": L+= [f"{ind}try:", f"{ind}    {body}", f"{ind}except KeyError:", f"{ind}    raise"]
         elif ending=="tryfinally": L+= [f"{ind}try:", f"{ind}    {body}", f"{ind}finally:", f"{ind}    pass"]
         elif ending=="condreturn": L+= [f"{ind}{body}", f"{ind}if spec.get('never'):", f"{ind}    return 5"]
     return "\n".join(L)+"\n"
@@ -125,6 +126,11 @@ def hop_scenario(depth):
             exp_n = (depth + 1) // 2 + 1 if depth % 2 == 0 else None
             leg.case(("hops", depth), True)
             want_trio, want_thread = depth + 1, depth      # in_trio(d) -> thread in_thread(d) -> in_trio(d-1) -> ... -> in_trio(0)
+            # the frames must be the RIGHT threads' frames, in order (all worker threads share one name here)
+            ds = [(f.funcname, f.pyframe.f_locals.get("d")) for f in st.frames if f.funcname in ("in_trio", "in_thread")]
+            want_ds = [x for k in range(depth, 0, -1) for x in (("in_trio", k), ("in_thread", k))] + [("in_trio", 0)]
+            if ds != want_ds:
+                leg.violation(("hops-identity", depth), f"thread-hop chain splices the wrong thread's frames: {ds} != {want_ds}")
             if names.count("in_trio") != want_trio or names.count("in_thread") != want_thread or st.error is not None or w:
                 leg.violation(("hops", depth), f"thread-hop chain of depth {depth}: frames {names}, error={st.error!r}, warnings={[str(x.message)[:60] for x in w]}")
             ev.set(); n.cancel_scope.cancel()
